@@ -346,7 +346,7 @@ func (o *oracleState) Check(s *Sim, ev *Event, obs *Obs) {
 				r.Count("probe_keysend_preimage_known_bypasses_address")
 			}
 			if carries && inv.Addr != invoices.BlankPayAddr && *addr != inv.Addr {
-				fail("address-mismatch", "HTLC %s carried payment address %x.. but invoice #%d has %x.. and it was settled", keyStr(h.Key), addr[:4], inv.AddIndex, inv.Addr[:4])
+				fail("address-mismatch", "HTLC %s carried payment address %x but invoice #%d has %x and it was settled: %s", keyStr(h.Key), addr[:], inv.AddIndex, inv.Addr[:], spec)
 			}
 			// common total
 			dt := spec.DeclaredTotal()
